@@ -245,6 +245,18 @@ class Executor:
                 for n_, d in zip(extra, args.defaults[len(args.defaults) - len(extra):]):
                     extra_defaults[n_] = d
                 names = names[:len(cnames)]
+                # ... provided nobody in the module passes the new parameters (a recursive call with another value would be
+                # assumed to satisfy a contract that was only verified at the default)
+                from . import core as _core
+                own = self.qualname.split('.')[-1]
+                npos = len(cnames) - (1 if cnames and cnames[0] == 'self' else 0)
+                for n_ in ast.walk(_core.module(self.modname).tree):
+                    if isinstance(n_, ast.Call) and ((isinstance(n_.func, ast.Name) and n_.func.id == own)
+                                                     or (isinstance(n_.func, ast.Attribute) and n_.func.attr == own)):
+                        if len(n_.args) > npos or any(k.arg in extra_defaults or k.arg is None for k in n_.keywords) \
+                                or any(isinstance(a_, ast.Starred) for a_ in n_.args):
+                            raise OutOfSubset('the contract of %s has %d parameters, the function %d (and the new one is passed at line %d)'
+                                              % (self.qualname, len(cnames), len(args.args), n_.lineno))
         if len(names) + (1 if args.vararg else 0) != len(cnames) and not all(n in pmap for n in names):
             raise OutOfSubset('the contract of %s has %d parameters, the function %d' % (self.qualname, len(cnames), len(names)))
         for n_, d in extra_defaults.items():
